@@ -7,6 +7,8 @@ import BiotiteModel.Proofs.C19Binary
 import BiotiteModel.Proofs.C19Upgma
 import BiotiteModel.Proofs.C19Rows
 import BiotiteModel.Proofs.C19NJAdd
+import BiotiteModel.Proofs.C19NJCherry
+import BiotiteModel.Proofs.C19TreeMetric
 import BiotiteModel.Gen.C19
 /-!
 # C19 — property theorems (trees contain every taxon once and keep distances)
@@ -14,9 +16,8 @@ import BiotiteModel.Gen.C19
 Only property statements and non-vacuity examples; helper lemmas live in `Proofs/C19*.lean`.
 Everything quantifies over all inputs of the executable model (`Model/C19Tree.lean`,
 `Model/C19Cluster.lean`), which the correspondence harness ties to the Cython code.
-Not proved here (see notes/C19.md): the cherry lemma of neighbour joining for more than four live
-taxa — `C19_nj_additive` carries it as the hypothesis `CherryLemma n`; for n ≥ 5 "NJ recovers every
-additive metric" therefore rests on the oracle on the real code.
+Every clause of the property is a theorem here; trusted/modelled parts (float32 rounding, Python
+float formatting, numpy helpers) are listed in notes/C19.md.
 -/
 namespace BiotiteModel.C19
 
@@ -97,9 +98,7 @@ theorem C19_nj_reduce_invariant {n : Nat} {D : Nat → Nat → Rat} {s : NState}
     NAInv n D (njMerge n s i j) :=
   NAInv_merge h hrem h3 hi hj hij hci hcj hcd
 
-/-- **NJ recovers every path length — conditional on cherry selection** (partial: the classical
-lemma "the pair minimising the Q-criterion of an additive matrix is a cherry" is proved here only for
-four live taxa, `C19_nj_cherry_4`).  If in every state the loop reaches with more than three live
+/-- **NJ recovers every path length — conditional on cherry selection** (the run-wise form; the hypothesis is discharged for every additive matrix by `C19_nj_cherry`).  If in every state the loop reaches with more than three live
 taxa the selected pair is a cherry, then for the returned tree the a-th and b-th leaf (indices
 `x`, `y`) are at `distance_to` exactly `D x y`, for all `a < b`. -/
 theorem C19_nj_additive_of_cherry (n : Nat) (D : Nat → Nat → Rat)
@@ -119,29 +118,68 @@ theorem C19_nj_reduce_additive {n : Nat} {s : NState} (hm : NMetric n s) (hrem :
   fourPoint_merge hm hrem h3 hfp hi hj hij hci hcj hcd
 
 /-- **Cherry lemma for four live taxa**: on a symmetric, zero-diagonal matrix satisfying the four-point
-condition, the pair minimising the corrected distance (Q-criterion) is a cherry.  (The general case,
-more than four live taxa — Saitou–Nei / Studier–Keppler — is *not* proved; it is the hypothesis
-`CherryLemma n` of `C19_nj_additive`.) -/
+condition, the pair minimising the corrected distance (Q-criterion) is a cherry (direct proof for four
+taxa; the general case is `C19_nj_cherry`). -/
 theorem C19_nj_cherry_4 {n : Nat} {s : NState} (hm : NMetric n s) (hrem : s.nrem = liveCount n s.cl)
     (h4 : s.nrem = 4) (hfp : FourPoint n s) : CherrySel n s :=
   nj_cherry_4 hm hrem h4 hfp
 
-/-- **NJ reproduces every leaf-to-leaf path length of an additive matrix — reduced to the cherry
-lemma** (partial).  For `n ≥ 4`, `D` symmetric with zero diagonal and the four-point condition: *if*
-`CherryLemma n` holds (in every loop state with a symmetric, zero-diagonal, four-point matrix and more
-than three live taxa the Q-minimal pair is a cherry), then for the returned tree the a-th and b-th
-leaf (indices `x`, `y`) are at `distance_to` exactly `D x y`.  Everything else of the classical proof
-is discharged here: branch lengths, reduction keeps metric + four-point + the tree/matrix invariant,
-the final three-way join, the induction over the loop. -/
-theorem C19_nj_additive (n : Nat) (D : Nat → Nat → Rat) (H : CherryLemma n)
+/-- **Cherry lemma (Saitou–Nei / Studier–Keppler), abstract form.**  On a finite set `N` of taxa with a
+symmetric, zero-diagonal `d` satisfying the (weak) four-point condition, *every* pair minimising
+`Q(x,y) = (|N|−2)·d(x,y) − r_x − r_y` is a cherry: `d(i,k) − d(j,k)` is the same for all other `k`.
+No positivity is needed: zero-length internal edges are allowed (the pair is then a cherry of some
+resolution), leaf edges are unconstrained; ties are covered because the statement is about every
+minimiser, so the code's first-minimum scan always selects a cherry.  Proof by averaging: the sum of
+`Q` over the pairs inside the smaller end-side of the path `i — j` is strictly below
+(number of pairs)·`Q(i,j)` unless all other taxa attach at one point. -/
+theorem C19_cherry_lemma {N : Finset ℕ} {d : ℕ → ℕ → ℚ} (h : Cherry.M4 N d) {i j : ℕ} (hi : i ∈ N)
+    (hj : j ∈ N) (hij : i ≠ j)
+    (hmin : ∀ x ∈ N, ∀ y ∈ N, x ≠ y → Cherry.QQ N d i j ≤ Cherry.QQ N d x y) :
+    ∀ k ∈ N, ∀ l ∈ N, k ≠ i → k ≠ j → l ≠ i → l ≠ j → d i k - d j k = d i l - d j l :=
+  Cherry.cherry h hi hj hij hmin
+
+/-- **Cherry lemma on the loop states of `neighbor_joining`**, any number of live taxa: whenever the
+live part of the working matrix is symmetric with zero diagonal and satisfies the four-point
+condition, the pair found by the minimum search over the corrected distances is a cherry. -/
+theorem C19_nj_cherry (n : Nat) (s : NState) (hN : NInv n s) (hM : NMetric n s) (hF : FourPoint n s)
+    (h3 : 3 < s.nrem) : CherrySel n s :=
+  cherryLemma_all n s hN hM hF h3
+
+/-- **Neighbour joining reproduces every leaf-to-leaf path length of every additive distance matrix.**
+For `n ≥ 4` and `D` symmetric with zero diagonal satisfying the four-point condition (the classical
+characterisation of tree metrics; zero-length edges and therefore identical taxa and ties included):
+for the returned tree the a-th and b-th leaf (depth-first order, indices `x`, `y`) are at
+`distance_to` — hence `Tree.get_distance(x, y)` — exactly `D x y`, for all `a < b`.  (That a tree is
+returned at all is `C19_nj_total`; that every index occurs once is `C19_nj_leaves`.) -/
+theorem C19_nj_additive (n : Nat) (D : Nat → Nat → Rat)
     (hsym : ∀ a b, a < n → b < n → D a b = D b a) (hdiag : ∀ a, a < n → D a a = 0)
     (hfp : FourPoint n (NState.init n D)) (hn : 4 ≤ n) (t : T Rat) (h : neighborJoining n D = .ok t)
     (a b : Nat) (hab : a < b) (hb : b < t.leaves.length) :
     ∃ (x y : Nat) (pa pb : List Nat), t.leafPaths[a]? = some (x, pa) ∧ t.leafPaths[b]? = some (y, pb) ∧
       distanceTo t false pa pb = .ok (D x y) :=
-  intra_distance D t (nj_additive_of_lemma n D H hsym hdiag hfp hn t h) a b hab hb
+  intra_distance D t (nj_additive n D hsym hdiag hfp hn t h) a b hab hb
 
-/-- **Quartets (unconditional)**: NJ reproduces every path length of every additive 4×4 matrix. -/
+/-- **Tree metrics are additive** (easy direction of Buneman's theorem): the leaf-to-leaf path-length
+matrix `treeMetric t` of any tree with non-negative branch lengths (any arity; `treeMetric t x y` is the
+`distance_to` of the leaves with indices `x`, `y`) satisfies the four-point condition, is symmetric and
+has zero diagonal. -/
+theorem C19_tree_metric_four_point (t : T Rat) (ht : t.NonNeg) (n : Nat) :
+    FourPoint n (NState.init n (treeMetric t)) ∧ (∀ x y, treeMetric t x y = treeMetric t y x) ∧
+    (∀ x, treeMetric t x x = 0) ∧
+    ∀ x y, distanceTo t false (pathOf t x) (pathOf t y) = .ok (treeMetric t x y) :=
+  ⟨treeMetric_fourPoint t ht n, treeMetric_symm t, treeMetric_self t, treeMetric_eq_distance t⟩
+
+/-- **Neighbour joining reproduces every leaf-to-leaf path length of every tree-like matrix**, in the
+literal reading of the property: for any tree `t` with non-negative branch lengths (any arity, zero
+lengths allowed) and `n ≥ 4`, running NJ on the path-length matrix of `t` returns a tree whose a-th and
+b-th leaf, carrying indices `x` and `y`, are at the same `distance_to` as the leaves `x`, `y` of `t`. -/
+theorem C19_nj_tree_metric (t : T Rat) (ht : t.NonNeg) (n : Nat) (hn : 4 ≤ n) (t' : T Rat)
+    (h : neighborJoining n (treeMetric t) = .ok t') (a b : Nat) (hab : a < b) (hb : b < t'.leaves.length) :
+    ∃ (x y : Nat) (pa pb : List Nat), t'.leafPaths[a]? = some (x, pa) ∧ t'.leafPaths[b]? = some (y, pb) ∧
+      distanceTo t' false pa pb = distanceTo t false (pathOf t x) (pathOf t y) :=
+  nj_tree_metric t ht n hn t' h a b hab hb
+
+/-- Quartets, proved directly (kept as the small instance; subsumed by `C19_nj_additive`). -/
 theorem C19_nj_additive_4 (D : Nat → Nat → Rat)
     (hsym : ∀ a b, a < 4 → b < 4 → D a b = D b a) (hdiag : ∀ a, a < 4 → D a a = 0)
     (hfp : FourPoint 4 (NState.init 4 D)) (t : T Rat) (h : neighborJoining 4 D = .ok t)
@@ -304,6 +342,27 @@ example : (∀ a b, a < 4 → b < 4 → exampleD4 a b = exampleD4 b a) ∧ (∀ 
   simp only [Bool.or_eq_true, decide_eq_true_eq, h1, h2, h3, h4, h5, h6, or_false] at this
   exact this
 
+/-- A 5-taxon tree metric (caterpillar `((0,1),2,(3,4))` with a zero-length leaf edge) meets the
+hypotheses of `C19_nj_additive`. -/
+def exampleD5 : Nat → Nat → Rat := fun i j =>
+  ([[0, 3, 4, 7, 6], [3, 0, 3, 6, 5], [4, 3, 0, 5, 4], [7, 6, 5, 0, 3], [6, 5, 4, 3, 0]].getD i []).getD j 0
+example : (∀ a b, a < 5 → b < 5 → exampleD5 a b = exampleD5 b a) ∧ (∀ a, a < 5 → exampleD5 a a = 0) ∧
+    FourPoint 5 (NState.init 5 exampleD5) := by
+  have k1 : ∀ a, a < 5 → ∀ b, b < 5 → exampleD5 a b = exampleD5 b a := by decide +kernel
+  have k2 : ∀ a, a < 5 → exampleD5 a a = 0 := by decide +kernel
+  have k3 : ((List.range 5).all fun a => (List.range 5).all fun b => (List.range 5).all fun c =>
+      (List.range 5).all fun e =>
+        decide (exampleD5 a b + exampleD5 c e ≤ exampleD5 a c + exampleD5 b e) ||
+        decide (exampleD5 a b + exampleD5 c e ≤ exampleD5 a e + exampleD5 b c) ||
+        decide (a = b) || decide (a = c) || decide (a = e) || decide (b = c) || decide (b = e) ||
+        decide (c = e)) = true := by decide +kernel
+  refine ⟨fun a b ha hb => k1 a ha b hb, k2, ?_⟩
+  intro a b c e ha hb hc he _ _ _ _ h1 h2 h3 h4 h5 h6
+  simp only [List.all_eq_true, List.mem_range] at k3
+  have := k3 a ha b hb c hc e he
+  simp only [Bool.or_eq_true, decide_eq_true_eq, h1, h2, h3, h4, h5, h6, or_false] at this
+  exact this
+
 /-- All taxa identical: the hypotheses of `C19_nj_total` hold and the loop returns all five leaves. -/
 example : allcloseSym 5 (fun _ _ => 0) = true ∧ anyNegative 5 (fun _ _ => 0) = false ∧
     (njLoop 5 5 (NState.init 5 (fun _ _ => 0))).map (fun t => t.leaves.length) = some 5 := by decide +kernel
@@ -324,6 +383,10 @@ example : (exampleQ.rows.map (·.2)).map (·.length) = [3, 2, 1, 0] ∧
 
 example : exampleQ.leafPaths.map (·.2) = [[0, 0], [0, 1], [0, 2], [1, 0]] ∧ mkTree exampleQ = .ok exampleQ := by
   decide +kernel
+
+example : exampleQ.NonNeg := by
+  simp only [exampleQ, T.NonNeg, F.NonNeg]; norm_num
+example : pathOf exampleQ 3 = [0, 2] ∧ pathOf exampleQ 1 = [1, 0] := by decide +kernel
 
 /-- A codec meeting the hypotheses of the round trip: natural numbers in decimal. -/
 def natCodec : Codec Nat where
